@@ -104,6 +104,24 @@ func HarnessC16Folding() {
 		return
 	}
 	href := "http://" + lh + "/story/" + []string{"3", "1", "3/", "x3"}[vx.Choose("tail", 4)]
+	if vx.Choose("algo", 2) == 1 {
+		// the page-number algorithm on a conventional pager "1 [2] [3]" whose
+		// links sit on the (possibly look-alike) link host (round k)
+		pageURL, err = nurl.Parse("http://" + ph + "/story/1")
+		if err != nil {
+			return
+		}
+		h2, h3 := "http://"+lh+"/story/2", "http://"+lh+"/story/3"
+		doc := vx.ParseHTML(`<html><body><p>some words</p><div class="pager">1 <a href="` + h2 + `">2</a> <a href="` + h3 + `">3</a></div></body></html>`)
+		info := NewPageNumberFinder(c16Words{}, nil, nil).FindPagination(doc, pageURL)
+		if ph == lh {
+			vx.Cover("folding-pagenumber-same")
+			vx.Assert(info.NextPage != "", "page-number pager on the page's own host is not resolved")
+		}
+		c16Check(info.NextPage, "NextPage", pageURL, []string{h2, h3})
+		c16Check(info.PrevPage, "PrevPage", pageURL, []string{h2, h3})
+		return
+	}
 	text := []string{"next", "prev", "3"}[vx.Choose("text", 3)]
 	// a <base> element naming the link's host (asset host): the page is still the page
 	base := []string{"", `<head><base href="http://` + lh + `/assets/"></head>`}[vx.Choose("base", 2)]
